@@ -1065,7 +1065,7 @@ var jsFragments = []string{
 	"rec(TS[1]+TS[2]+TS[3]+TS.length+TS2[0]+TS.charAt(0))",
 	"Math.random();Math.random();",
 	"if(typeof gs!=='undefined'){rec(gs.Name+gs.Count+gs.Sum(2,3)+gs.Tags.length+gs.M.k);gs.Count=gs.Count+1;rec(gs.Count)}",
-	"if(typeof gs!=='undefined'){gs.Tags[0]='z';gs.M.q=5;rec(gs.Tags.join()+Object.keys(gs.M).sort().join()+JSON.stringify(gs))}",
+	"if(typeof gs!=='undefined'){gs.Tags[0]='z';gs.M.q=5;rec(gs.Tags.join()+Object.keys(gs.M).sort().join()+JSON.stringify(gs.Tags)+gs.Name)}",
 }
 
 // genQuietProg: a program that never records a random value (for runtimes that
